@@ -61,6 +61,10 @@ var (
 	oneTwentyEight = big.NewInt(+128)
 	ffff           = big.NewInt(0xFFFF)
 
+	// maxArrayElements bounds the number of elements of an array type,
+	// counting nested arrays' elements.
+	maxArrayElements = big.NewInt(0x7FFFFFFF)
+
 	// maxPointerBounds is the artificial value in the [0 ..= maxPointerBounds]
 	// range for bounds-checking pointer-typed values. Its value is arbitrary
 	// (but greater than 1).
